@@ -58,3 +58,75 @@ package transaction
 //@   noframe
 //@   callpre Set: idxKey(k, uint64(idx)) && o == list[idx]
 //@   loop 0: invariant -1 <= rangeindex && rangeindex < len(list)
+
+// C37: pre-validation against the proposal's world context; with update=true it also applies the
+// transaction's balance effect, so a later call sees the cumulative effect (body of the v3
+// implementation: see below / not under contract for other kinds). pv_ok records, per transaction
+// object, whether its most recent updating pre-validation succeeded.
+//@ property C37
+//@ smt all (declare-ghost pv_ok (Array Iface Bool))
+//@ func (tx Transaction) PreValidate(wc, update) (err)
+//@   iface
+//@   trusted
+//@   modifies *
+//@   opt ghost:pv_ok store(ghost(pv_ok), tx, ghost(pv_ok)[tx] || (err == nil && update))
+//@ func (tx Transaction) Group() (g)
+//@   iface
+//@   trusted
+//@   pure
+//@ func (tx Transaction) Bytes() (bs)
+//@   iface
+//@   trusted
+//@   pure
+//@ func (tx Transaction) From() (a)
+//@   iface
+//@   trusted
+//@   pure
+
+// ---------------------------------------------------------------------------
+// C13: a v3 transaction verifies only if the key recovered from its signature over its own hash
+// derives exactly its sender: an account (not contract) address with that id
+// ---------------------------------------------------------------------------
+//@ property C13
+//@ smt all (declare-fun txv3_hash (Int) BSeq)
+//@ func (tx *transactionV3) TxHash() (h)
+//@   trusted
+//@   modifies tx.txHash
+//@   requires tx != nil
+//@   ensures seq(h) == txv3_hash(ref(tx)) && h == tx.txHash
+// the sender is the From field of the (immutable) transaction data: an abstract address value per
+// transaction object (the method returns a pointer into the transaction, which the engine does not model)
+//@ smt all (declare-fun txv3_from (Int) Iface)
+//@ func (tx *transactionV3) From() (a)
+//@   trusted
+//@   pure
+//@   requires tx != nil
+//@   ensures a == txv3_from(ref(tx)) && a != nil && ivalue(a) != 0
+//@ func (tx *transactionV3) verifySignature() (err)
+//@   arith int
+//@   requires tx != nil
+//@   modifies tx.txHash
+//@   ensures [signed] err == nil ==> tx.Signature.Signature != nil && sig_ok(ref(tx.Signature.Signature), txv3_hash(ref(tx)))
+//@   ensures [sender] err == nil ==> !addr_contract(txv3_from(ref(tx))) && addr_id(txv3_from(ref(tx))) == acc_addr(sig_pk(ref(tx.Signature.Signature), txv3_hash(ref(tx))))
+
+// A transaction parsed from JSON keeps the id of that JSON: the cached hash is the hash of the
+// JSON map it was parsed from (whether or not it equals the hash of the canonical form)
+//@ smt all (declare-fun jsmap_hash (Int) BSeq)
+//@ func calcHashOfTransactionJSMap(jsm, version) (h, err)
+//@   trusted
+//@   pure
+//@   ensures err == nil ==> seq(h) == jsmap_hash(ref(jsm))
+//@ func parseTransactionJSON(js) (jso, err)
+//@   trusted
+//@   pure
+//@   ensures err == nil ==> jso != nil
+//@ func (tx *transactionV3) ID() (h)
+//@   trusted
+//@   modifies tx.txHash
+//@   requires tx != nil
+//@   ensures seq(h) == txv3_hash(ref(tx)) && h == tx.txHash
+//@ func parseV3JSON(js, jsm, raw) (r, err)
+//@   arith int
+//@   nosafety
+//@   modifies *
+//@   ensures [json_id] err == nil && !raw ==> typeof(r) == typeid(ptr_transactionV3) && as(ptr_transactionV3, r) != nil && seq(as(ptr_transactionV3, r).txHash) == jsmap_hash(ref(jsm))
